@@ -187,3 +187,7 @@ package deps
 //@ trusted func (k *keylock.KeyLock) Unlock(key string)
 //@   modifies ghost.wunlocks
 //@   ensures wunlocks == old(wunlocks) + 1
+//@ trusted func bytes.LastIndexByte(s []byte, c byte) (r int)
+//@   ensures -1 <= r && r < len(s)
+//@   ensures imp(r >= 0, s[r] == c && forall(k, r+1, len(s), s[k] != c))
+//@   ensures imp(r == -1, forall(k, 0, len(s), s[k] != c))
